@@ -138,13 +138,35 @@ func Discharge(o *Obligation, timeoutS int) {
 					// already unreachable before the call; a contradictory assumption otherwise.
 					pre := *o
 					pre.Mark, pre.Reach, pre.PreMark = o.PreMark, o.PreReach, 0
-					pf := base + ".pre.smt2"
-					os.WriteFile(pf, []byte(pre.queryText(solvers[0].head)), 0o644)
-					r, _ := runSolver(context.Background(), solvers[0], pf, 5)
-					os.Remove(pf)
-					if r == "unsat" {
-						o.Status = "dead"
+					// race all solvers on the state before the call: unsat -> dead code, sat -> the assumed
+					// contract is contradictory (alarm), undecided -> recorded as suspect, not an alarm
+					type pa struct{ r string }
+					pch := make(chan pa, len(solvers))
+					pctx, pcancel := context.WithCancel(context.Background())
+					for _, ps := range solvers {
+						ps := ps
+						go func() {
+							pf := base + ".pre." + ps.name + ".smt2"
+							os.WriteFile(pf, []byte(pre.queryText(ps.head)), 0o644)
+							r, _ := runSolver(pctx, ps, pf, 20)
+							os.Remove(pf)
+							pch <- pa{r}
+						}()
 					}
+					verdict := "suspect"
+					for range solvers {
+						a := <-pch
+						if a.r == "unsat" {
+							verdict = "dead"
+							break
+						}
+						if a.r == "sat" {
+							verdict = "vacuous"
+							break
+						}
+					}
+					pcancel()
+					o.Status = verdict
 				}
 			} else {
 				o.Status = "proved"
@@ -238,6 +260,63 @@ func parseValues(o *Obligation, text string) map[string]string {
 
 func normalizeWS(s string) string {
 	return strings.Join(strings.Fields(s), " ")
+}
+
+// Confirm re-decides a proved obligation with a solver of the other family (cvc5 for z3 answers, z3 5.1 for
+// cvc5 answers). Returns "confirmed", "disagree" (the second solver found a model) or "undecided".
+func Confirm(o *Obligation, timeoutS int) string {
+	if o.Status != "proved" || o.vc == nil {
+		return ""
+	}
+	other := solvers[2] // cvc5
+	if o.Solver == "cvc5" {
+		other = solvers[0]
+	}
+	h := sha1.Sum([]byte(o.Name))
+	f := filepath.Join(outDir, "q", fmt.Sprintf("%x.confirm.%s.smt2", h[:8], other.name))
+	os.MkdirAll(filepath.Dir(f), 0o755)
+	os.WriteFile(f, []byte(o.queryText(other.head)), 0o644)
+	defer os.Remove(f)
+	res, _ := runSolver(context.Background(), other, f, timeoutS)
+	switch res {
+	case "unsat":
+		return "confirmed"
+	case "sat":
+		return "disagree"
+	}
+	return "undecided"
+}
+
+func ConfirmAll(obls []*Obligation, timeoutS, workers int) map[string]int {
+	var mu sync.Mutex
+	out := map[string]int{}
+	var wg sync.WaitGroup
+	ch := make(chan *Obligation)
+	for w := 0; w < workers; w++ {
+		wg.Add(1)
+		go func() {
+			defer wg.Done()
+			for o := range ch {
+				r := Confirm(o, timeoutS)
+				if r == "" {
+					continue
+				}
+				mu.Lock()
+				out[r]++
+				if r == "disagree" {
+					o.Status = "refuted"
+					o.Output = "solver disagreement: " + o.Solver + " answered unsat, the other solver family found a model"
+				}
+				mu.Unlock()
+			}
+		}()
+	}
+	for _, o := range obls {
+		ch <- o
+	}
+	close(ch)
+	wg.Wait()
+	return out
 }
 
 func DischargeAll(obls []*Obligation, timeoutS, workers int) {
